@@ -41,7 +41,7 @@ CRASHERS = [
 def run(chk, model_ok=True):
     rng = random.Random(chk.seed)
     quick = chk.tier == "quick"
-    n = 6000 if quick else 120000
+    n = 18000 if quick else 720000
     st = streams.Streams(chk, model_ok)
     st.add("corpus", streams.corpus_lines("C01") + CRASHERS)
     for name, fn in [("hdr", gens.lines_hdr), ("ber", gens.lines_ber), ("value", gens.lines_value),
